@@ -50,3 +50,4 @@ package handlers
 //@ func (*MaprHandler).Shutdown
 //@   ghost-init g_flushed == 0
 //@   at-call baseHandler).Shutdown [flushed-before-stopping] g_flushed == 1
+//@   ensures [flushes-on-every-path] g_flushed == 1
